@@ -331,7 +331,9 @@ CheckEnd(s, e) ==
       ELSE IF ~TEq(e.ret, pd.lk.r.ret) THEN "PersistedEqualsReturned"
       ELSE IF pd.kind = "bf" /\ e.real # "file" THEN "TargetFileAfterOk"
       ELSE ""
-    ELSE IF e.fault THEN ""      \* an injected OS error surfaced from the call in progress (C14)
+    \* an injected OS error surfaces from the call in progress (C14) - as that error, not as a secondary
+    \* exception raised by the clean-up
+    ELSE IF e.fault THEN IF e.err # "OSError" THEN "FaultSurfaces" ELSE ""
     ELSE
       IF pd.serr = "" THEN "NoSpuriousException"
       ELSE IF e.err # pd.serr THEN "SetupErrClass"
@@ -398,7 +400,7 @@ BuildEndFails(s, e) ==
   IN
   IF fr.fin.out = "return" /\ e.fault THEN
     \* the root function succeeded but writing the cache failed: roll back (C14, C16)
-    IF e.out # "raised" THEN {"FaultSurfaces"}
+    IF e.out # "raised" \/ e.err # "OSError" THEN {"FaultSurfaces"}
     ELSE C(RollbackOK(s.pre, d, s.rec.cdirs), "CacheReplacedOnlyOnSuccess")
          \cup C(e.tmp, "TempDirRemoved")
   ELSE IF fr.fin.out = "return" THEN
@@ -427,7 +429,7 @@ CheckBuildEnd(s, e) ==
       ELSE IF ~e.tmp THEN "RefusalNoEffect"
       ELSE ""
     ELSE IF e.fault THEN     \* an injected fault before the root function ran: like a refusal
-      IF e.out # "raised" THEN "FaultSurfaces"
+      IF e.out # "raised" \/ e.err # "OSError" THEN "FaultSurfaces"
       ELSE IF ~RollbackOK(s.disk, d, s.rec.cdirs) THEN "FaultLeavesConsistent"
       ELSE IF ~e.tmp THEN "TempDirRemoved"
       ELSE ""
